@@ -38,7 +38,8 @@ VARIABLES
   upH,     \* height at which B put that resolution on the wire
   pre,     \* B knows the preimage
   preLate, \* ... but learnt it only after its own go-on-chain point for the upstream HTLC
-  dn,      \* B's HTLC at C: "none" | "pending" | "fulfilled" | "failed" | "gone" | "claimed"
+  dn,      \* B's HTLC at C: "none" | "cell" (accepted, waiting in B's holding cell) | "pending" (on the
+           \* wire) | "fulfilled" | "failed" | "gone" | "claimed"
   dnH,     \* height of that resolution (gone: B's timeout / HTLC-less commitment confirmed)
   xH,      \* height at which C acted off chain (-1: never)
   cD, cDb, cDc,   \* downstream channel "open" | "bcast" | "conf"; broadcast / confirmation height
@@ -102,6 +103,18 @@ Forward(E) ==
   /\ Flag(MayForward(h, eu, E, d), "NeverShowOrForwardTooSoon")
   /\ UNCHANGED <<h, role, upMode, dnMode, eu, d, dl, upH, pre, preLate, dnH, xH, cD, cDb, cDc, toB,
                  cU, cUb, cUc, suB, suC, lost>>
+
+\* (not observable) B accepted the forward but cannot put it on the wire yet: holding cell
+Queue ==
+  /\ role = "fwd" /\ up = "offered" /\ dn = "none"
+  /\ dn' = "cell"
+  /\ UNCHANGED <<h, role, upMode, dnMode, eu, ed, d, dl, up, upH, pre, preLate, dnH, xH, cD, cDb, cDc, toB,
+                 cU, cUb, cUc, suB, suC, lost, viol>>
+\* (not observable) the downstream peer finally answers and finds B's holding cell empty
+Probe ==
+  /\ xH' = h
+  /\ UNCHANGED <<h, role, upMode, dnMode, eu, ed, d, dl, up, upH, pre, preLate, dn, dnH, cD, cDb, cDc, toB,
+                 cU, cUb, cUc, suB, suC, lost, viol>>
 
 \* B's update_fail_htlc to A
 FailUp ==
@@ -206,7 +219,7 @@ Block(cf) ==
 \* ---------------------------------------------------------------- the property, timing part
 TypeOK ==
   /\ role \in {"none", "final", "fwd"} /\ up \in {"none", "offered", "held", "fulfilled", "failed"}
-  /\ dn \in {"none", "pending", "fulfilled", "failed", "gone", "claimed"}
+  /\ dn \in {"none", "cell", "pending", "fulfilled", "failed", "gone", "claimed"}
   /\ cD \in {"open", "bcast", "conf"} /\ cU \in {"open", "bcast", "conf"}
 
 NeverShowOrForwardTooSoon == viol # "NeverShowOrForwardTooSoon"
